@@ -5,6 +5,10 @@ From SK Require model.C06_Model model.C11_Model.
 From SK Require Import model.C03_Model model.C05_Model proof.C05_Proof proof.C05_Glue proof.C05_Pipe proof.C05_Prep proof.C05_Comp.
 Import ListNotations.
 
+Section WithThr.
+Context {TH : Thr}.
+
+
 Lemma kept_relabel strat sg pi (Hs : inj sg) (Hp : inj pi) host p :
   kept_of strat (relabel pi host) (relabel_prep sg p) = map (mv sg pi) (kept_of strat host p).
 Proof.
@@ -33,3 +37,5 @@ Proof.
   intros Hprep Hflag. unfold pipeline. rewrite (prepare_relabel sg Hs inv T p Hprep Hflag), Hprep.
   apply results_relabel; assumption.
 Qed.
+
+End WithThr.
